@@ -30,7 +30,7 @@ RULE = (
     "alternation, {m,n}, classes with ] ^ -, anchors, dot, quotes/backslashes). Routes: schema text via load_schema, META.CONTRACT "
     "via compile_gbnf_from_meta, SchemaDefinition via API; GBNFCompiler fresh and reused instance, envelope on/off; tools "
     "octave_compile_grammar(schema=/content=), octave_eject(format=gbnf), grammar_hint of INVALID validate/write [every 4th]; the "
-    "4 packaged schemas always. Oracle: independent llama.cpp-syntax parser + root/undefined/duplicate/empty-alternative checks. "
+    "4 packaged schemas always, and the grammar_hint of INVALID responses for 3 packaged schemas x 8 hostile rejected values. Oracle: independent llama.cpp-syntax parser + root/undefined/duplicate/empty-alternative checks. "
     "Non-trivial = >=2 fields with a non-identifier name or a REGEX member; distinct by (route, field list)."
 )
 ASSUMPTIONS = [
@@ -54,7 +54,8 @@ REGEX_POOL = ["^[a-z]+$", "^[A-Z][a-z]*$", "^[0-9]{3}$", "^(foo|bar)$", "^a.c$",
               "^a|b$", "^$", "^.*$", "^.+$", "^?$", "^*$", "^a{2}$", "^a{2,}$", "^a{,3}$", "^[a-z]{1,3}[0-9]?$", "^(?:x)$", "^(?=a)a$", "^a b$", "^é+$",
               "^[é-ü]+$", "^[a-z]+\\$$", "^\\[x\\]$", "^a#b$", "^(unclosed$", "^[unclosed$", "^v[0-9]+\\.[0-9]+$"]
 SIMPLE_MEMBERS = ["REQ", "OPT", "TYPE[STRING]", "TYPE[NUMBER]", "TYPE[BOOLEAN]", "TYPE[LIST]", "DATE", "ISO8601", "DIR", "APPEND_ONLY", "RANGE[1,10]",
-                  "MIN_LENGTH[0]", "MIN_LENGTH[2]", "MAX_LENGTH[5]", "CONST[X]", "CONST[5]", 'CONST["a b"]', "CONST[true]"]
+                  "MIN_LENGTH[0]", "MIN_LENGTH[2]", "MAX_LENGTH[5]", "CONST[X]", "CONST[5]", 'CONST["a b"]', "CONST[true]",
+                  "ENUM[]", "ENUM[,]", "ENUM[ ]", "ENUM[A,]", "ENUM[,A]", 'ENUM[""]', "CONST[]", 'CONST[""]']  # (blank members)
 
 SYNTAX = {"expecting-name", "expecting-assign", "bad-escape", "unterminated-literal", "unterminated-class", "unbalanced-paren", "bad-repetition",
           "dangling-repetition", "expecting-newline", "unterminated"}
@@ -339,6 +340,8 @@ def shard(ctx: Ctx, sh: int, nshards: int, n: int) -> Stats:
     with scratch_dir() as root:
         if sh == 0:
             packaged(st)
+        if sh == 1 % nshards:
+            packaged_hints(st, root)
 
         def one(case):
             counter[0] += 1
@@ -374,7 +377,41 @@ def packaged(st: Stats):
                 st.fail(sig, {"packaged": nm, "envelope": env}, f"[packaged {nm}] {prob[0]} in rule {prob[1]!r}: {prob[2]}")
 
 
+HOSTILE_REJECTED = ['"bad\\nvalue"', '"x\\nroot ::= [a-z]+"', '"say \\"hi\\""', '"# not a comment"', '"a\\tb"', "nope", '"\\\\"', '"é\u2028z"']
+
+
+def packaged_hints(st: Stats, root: str):
+    """grammar_hint of INVALID validate / write responses for the packaged schemas, with hostile rejected values."""
+    for val in HOSTILE_REJECTED:
+        docs = {"META": f"===D===\nMETA:\n  TYPE::T\n  VERSION::\"1\"\n  STATUS::{val}\n===END===\n",
+                "SKILL": f"===D===\nMETA:\n  TYPE::{val}\n  VERSION::\"1\"\n  STATUS::{val}\n===END===\n",
+                "DEBATE_TRANSCRIPT": f"===D===\nMETA:\n  TYPE::T\nDEBATE_TRANSCRIPT:\n  MAX_ROUNDS::{val}\n  PARTICIPANTS::{val}\n  STATUS::{val}\n===END===\n"}
+        for nm, text in docs.items():
+            for view, call in (("validate", lambda: tools.validate(content=text, schema=nm, grammar_hint=True)),
+                               ("write", lambda: tools.write(target_path=os.path.join(root, "ph.oct.md"), content=text, schema=nm, grammar_hint=True, corrections_only=True))):
+                try:
+                    r = call()
+                except Exception:
+                    continue
+                st.evaluations += 1
+                st.labels["packaged_hint_calls"] += 1
+                gh = r.get("grammar_hint")
+                if isinstance(gh, dict) and isinstance(gh.get("grammar"), str):
+                    st.labels["packaged_hints_checked"] += 1
+                    for prob in problems_of(gh["grammar"]):
+                        if prob[0] == "rule-name-charset" and "_" in prob[2]:
+                            sig = "C12:rule-name-with-underscore"
+                        else:
+                            sig = f"C12:unlisted:hint:{prob[0]}"
+                        st.fail(sig, {"packaged_hint": nm, "value": val, "view": view}, f"[{view} grammar_hint, schema {nm}, rejected value {val}] {prob[0]} in rule {prob[1]!r}: {prob[2]} | grammar={gh['grammar'][:600]!r}")
+
+
 def check_case(case) -> list[Failure]:
+    if "packaged_hint" in case:
+        st = Stats()
+        with scratch_dir() as root:
+            packaged_hints(st, root)
+        return [f for fl in st.failures.values() for f in fl if f.case == case]
     if "packaged" in case:
         st = Stats()
         packaged(st)
